@@ -310,15 +310,14 @@ class Ctx:
 
                 kw = {}
                 if op[4] is not None:
-                    kw = {"min_columns": A.tags(op[4]), "max_columns": A.tags(op[4])}
+                    kw = _join_columns_kw(op[4])
                 j = Join(pred if pred is not None else Predicate.literal(True), **kw)
                 return j.apply(other, rel) if op[3] else j.apply(rel, other)
             if len(op) > 4 and op[4] is not None:
                 # explicit, pre-resolved common columns (public Join(min_columns=, max_columns=) API)
                 from lsst.daf.relation import Join, Predicate
 
-                cc = A.tags(op[4])
-                j = Join(pred if pred is not None else Predicate.literal(True), min_columns=cc, max_columns=cc)
+                j = Join(pred if pred is not None else Predicate.literal(True), **_join_columns_kw(op[4]))
                 if op[3]:
                     return j.partial(rel).apply(other, **flags)
                 return j.partial(other).apply(rel, **flags)
@@ -347,6 +346,14 @@ class Ctx:
         if isinstance(eng, iteration.Engine):
             return [{t.qualified_name: v for t, v in row.items()} for row in eng.execute(rel)]
         return fetch_sql(eng, rel, reverse)
+
+
+def _join_columns_kw(cc):
+    """Keyword arguments of Join for an explicit common-column request: a tuple of names (resolved:
+    min == max) or ("mm", min_names, max_names | None) (unresolved: the join intersects with max and checks min)."""
+    if cc[:1] == ("mm",):
+        return {"min_columns": A.tags(cc[1]), "max_columns": None if cc[2] is None else A.tags(cc[2])}
+    return {"min_columns": A.tags(cc), "max_columns": A.tags(cc)}
 
 
 LIB_REJECT = (ColumnError, EngineError, RelationalAlgebraError)
